@@ -165,8 +165,16 @@ impl ToTokens for FromMetaImpl<'_> {
                                     // Every error of the selected variant concerns this nested item,
                                     // not the whole list it sits in.
                                     // A keyword can only be written as a raw identifier: `r#match` names `match`.
-                                    let __name = ::darling::util::path_to_string(__nested.path());
-                                    (match __name.strip_prefix("r#").unwrap_or(__name.as_str()) {
+                                    let __name = __nested
+                                        .path()
+                                        .segments
+                                        .iter()
+                                        .map(|__s| ::darling::export::ToString::to_string(
+                                            &::darling::export::syn::ext::IdentExt::unraw(&__s.ident),
+                                        ))
+                                        .collect::<::darling::export::Vec<_>>()
+                                        .join("::");
+                                    (match __name.as_str() {
                                         #(#data_variants)*
                                         __other => ::darling::export::Err(::darling::Error::#unknown_variant_err)
                                     }).map_err(|e: ::darling::Error| e.with_span(__nested))
